@@ -44,6 +44,15 @@ func defFor(check string) *checkDef {
 			rule: "three kinds of simulated run under a -race build of the simulator: (a) concurrent windows: every window releases a seeded SET of 2-6 parked actors at once (clients batching, several clients reading one shared Reader through the optimised conjunction/disjunction paths, stored-field loads, Stats()/MemoryUsed(), reader acquisition, persister, merger, closer), so code regions released together have no happens-before edge and any conflicting access pair is reported by the race detector whatever the real timing; the harness is quiet there (no shared mutex between actors); (b) Close at an arbitrary scheduled moment once callers have returned, one release per window (replayable): Close must return (deterministic hang verdict), the three loops must exit, the directory must reopen with every acknowledged batch in a state the index went through; (c) a dedicated unshielded ice-v2 run that exercises the listed known finding. distinct = distinct release sequences; non-trivial = background step interleaved between client operations",
 			assume: append([]string{"the Go race detector reports only real races; which regions overlap is decided by the tape, the detector's verdict does not depend on real timing", "for ice v2 segments stored-field access is serialised by the harness wrapper (shield) in (a) so that the listed known race cannot mask others"}, commonAssume...),
 			probes: []string{"concurrent-windows", "close-while-background-work-in-progress", "reopened-after-early-close"}}
+	case "C08":
+		return &checkDef{property: "C08", level: "exploration", timeout: 300 * time.Second,
+			variants: []string{"C08", "C08merge"},
+			budget:   map[string]tierCfg{"quick": {700, 75}, "thorough": {40000, 1500}},
+			rule: "one simulated run per seed (0-18 operations per client, so the empty corpus occurs; file-system or in-memory directory, ice v1/v2, safe/unsafe, every second run merge-heavy) ends in build A = whatever layout the schedule produced (segmentation, pending deletions, merged or not); A is also read through Backup + OpenReader and, after Close, reopened from disk. The abstract index's live documents are then written as builds B: one in-memory batch (the reference), a seeded permutation, one document per batch without merges, one per batch with the default merge plan, the other segment format, all three query optimisations disabled, OfflineWriter with a seeded batch size, and partitioned over 2-4 indexes searched with MultiSearch. For 10-19 seeded queries per run drawn from all public query types (term, match or/and, phrase and multi-phrase with slop, prefix, wildcard, regexp, fuzzy, term/numeric/date ranges with both inclusivities, geo box and distance, match-all/none, booleans nested to depth 2 with must/should/must-not and min-should) every build must give the same match set (by uid), the same stored fields, the same order under the total sort -num,tag,-day,uid and the same aggregations (count, sum, min, max, avg, terms with nested sum); scores are compared exactly between builds without merged segments and without pending deletions; for the merged build a score difference is the listed known finding. distinct = distinct release sequences of run A; non-trivial = background step interleaved between client operations",
+			assume: commonAssume,
+			probes: []string{"diff-reference-builds", "diff-comparisons", "diff-score-comparisons", "diff-builds-run-layout", "diff-builds-backup-restored", "diff-builds-reopened-from-disk", "diff-recipe-rounds"}}
+	case "C08merge":
+		return defFor("C08")
 	case "C11":
 		return &checkDef{property: "C11", level: "exploration",
 			budget: map[string]tierCfg{"quick": {2500, 75}, "thorough": {100000, 1500}},
